@@ -282,3 +282,15 @@ func J(v interface{}) string {
 	}
 	return string(b)
 }
+
+// ContextTags lists the context tags of the monitor memory.
+func ContextTags(mem map[string]string) []string {
+	var tags []string
+	for k := range mem {
+		if strings.HasPrefix(k, "ctx:") {
+			tags = append(tags, k[4:])
+		}
+	}
+	sort.Strings(tags)
+	return tags
+}
